@@ -368,6 +368,36 @@ theorem c03_history_raw (cfg : Cfg) (le : String → String → Bool) (ops : Lis
   obtain ⟨o, ho, rfl⟩ := List.mem_map.mp he
   exact Parse.RawOp.ev_wf cfg o (h o ho)
 
+/-- **c03_history_text** — the run-time judge reads every message in the property text's reading of its location
+    (`Parse.textReading`: `locByText` instead of the code's substring test).  Whenever that reading agrees with the
+    code's on every message of a history, the judge accepts the model's trace.  The hypothesis fails exactly on the
+    inputs of the open finding F03a (e.g. `http://127.0.0.2/`, `http://user@127.0.0.1/`, `http://[0:0:0:0:0:0:0:1]/`,
+    `http://localhost/`, `httpx://…`), where the model — like the library — creates a device the text forbids. -/
+theorem c03_history_text (cfg : Cfg) (le : String → String → Bool) (ops : List Parse.RawOp)
+    (h : ∀ o ∈ ops, o.decoded cfg) (hagree : ∀ o ∈ ops, Parse.textReading (o.ev cfg) = o.ev cfg) :
+    ok ((traceOf Parse.ipVersion (Parse.skipHdr cfg) le {} (ops.map (Parse.RawOp.ev cfg))).map
+      fun x => (Parse.textReading x.1, x.2)) = true := by
+  have hid : (traceOf Parse.ipVersion (Parse.skipHdr cfg) le {} (ops.map (Parse.RawOp.ev cfg))).map
+      (fun x => (Parse.textReading x.1, x.2)) =
+      traceOf Parse.ipVersion (Parse.skipHdr cfg) le {} (ops.map (Parse.RawOp.ev cfg)) := by
+    suffices H : ∀ (s : Tracker String) (evs : List (Ev String)), (∀ e ∈ evs, Parse.textReading e = e) →
+        (traceOf Parse.ipVersion (Parse.skipHdr cfg) le s evs).map (fun x => (Parse.textReading x.1, x.2)) =
+        traceOf Parse.ipVersion (Parse.skipHdr cfg) le s evs by
+      apply H
+      intro e he
+      obtain ⟨o, ho, rfl⟩ := List.mem_map.mp he
+      exact hagree o ho
+    intro s evs
+    induction evs generalizing s with
+    | nil => intro _; rfl
+    | cons e r ih =>
+      intro hh
+      simp only [traceOf, run, List.map_cons, hh e List.mem_cons_self]
+      congr 1
+      exact ih _ (fun x hx => hh x (List.mem_cons_of_mem _ hx))
+  rw [hid]
+  exact c03_history_raw cfg le ops h
+
 /-! ### the string layer, at the constants of the property text -/
 
 /-- **max_age_value** — `CACHE-CONTROL: max-age=<n>` announces `n` seconds for every `n` a `timedelta` can hold
